@@ -30,6 +30,11 @@ What is extracted (everything the C15 model takes from the source instead of fro
     Storage.clean: whether the reverse scan stops (`break`) at the first non-expired value;
   * DHTDiscoveryCommunity.on_store_peer_request: guard sequence (token check, target == peer.mid).
 
+Before any recogniser runs, every function is normalised (`_fn`): private helper methods of the same class are inlined
+(straight-line statement helpers; boolean guard helpers of the `return False ... return True` shape), hoisted call-free
+attribute/subscript chains are substituted back, docstrings/logging/annotations dropped, keyword arguments of known callees
+made positional, negated/reversed comparisons rewritten.
+
 A construct outside these shapes raises TranslatorError (handled by the runner like a broken proof).
 """
 from __future__ import annotations
